@@ -738,6 +738,9 @@ INT_TYPES = {
     'long': (64, True), 'unsigned long': (64, False), 'long long': (64, True), 'unsigned long long': (64, False),
     'wchar_t': (32, True), 'char8_t': (8, False), 'char16_t': (16, False), 'char32_t': (32, False),
     '__int128': (128, True), 'unsigned __int128': (128, False),
+    'uint8_t': (8, False), 'int8_t': (8, True), 'uint16_t': (16, False), 'int16_t': (16, True), 'uint32_t': (32, False), 'int32_t': (32, True),
+    'uint64_t': (64, False), 'int64_t': (64, True), 'size_t': (64, False), 'ssize_t': (64, True), 'uintptr_t': (64, False), 'intptr_t': (64, True),
+    'std::size_t': (64, False), 'off_t': (64, True), 'ptrdiff_t': (64, True),
 }
 
 
